@@ -320,6 +320,15 @@ def random_cases(draw):
         for code in draw(st.lists(st.sampled_from(edges), max_size=6)):
             if code > 32 and chr(code).isprintable():
                 cells.append(base[:-1] + chr(code))
+    if fmt.get("layout") == "late-properties" and allowed and draw(st.booleans()):
+        # the field row carries an example that is fine when the row is read (the allowed characters are declared
+        # further down) but holds a character the data format does not allow in the data
+        plain = dict(fmt, allowed=None)
+        examples = [cell for cell in cells if cell.strip()
+                    and model_fields.verdict(field, plain, cell)[0] == "accept"
+                    and model_fields.verdict(field, fmt, cell)[0] == "reject"]
+        if examples:
+            field["example"] = draw(st.sampled_from(examples))
     return {"fmt": fmt, "field": field, "cells": cells}
 
 
